@@ -47,6 +47,7 @@ class RefDevice:
         self.last_response = {}  # cid -> last response packet bytes (for dup_prev)
         self.app_override = None  # callable(dev, req, frames, directive) -> frames
         self.raw_payload_handler = None  # callable(conn, decoded, key): protocol-level V3 payloads (C05)
+        self.raw_state = None            # (body bytes, with_msgid) raw 0xC0 report (C11)
         self.raw_frame_handler = None    # callable(conn, frame, key, directive) -> [frames] | None (C02/C03)
         self.net = None
 
@@ -461,6 +462,13 @@ class RefDevice:
         return codec.frame_build(b, ftype)
 
     def state_frame(self, ftype=FT_QUERY, state=None, length=None):
+        if self.raw_state is not None:
+            # raw-report mode (C11): the report body is given; optionally without a message-id byte
+            body, with_msgid = self.raw_state
+            if with_msgid:
+                return self.make_frame(body, ftype)
+            b = codec.body_with_crc(body) if self.check_style == "crc" else codec.body_with_sum(body)
+            return codec.frame_build(b, ftype)
         body = acmodel.encode_state(state or self.state, length or self.state_len)
         return self.make_frame(body, ftype)
 
